@@ -442,13 +442,35 @@ func textDeclared(in []byte) uint64 {
 func TestC11Server(t *testing.T) {
 	rec := evid.For("C11")
 	rapid.Check(t, func(t *rapid.T) {
-		sc := genStackCase(t, []string{"std"})
+		sc := genStackCase(t, []string{"std", "std", "chunked", "batched"})
 		sc.Binary = rapid.Bool().Draw(t, "binaryInput")
 		st := stack.Get(sc.Cfg)
 		st.Reset()
 		var in []byte
 		kind := ""
-		switch rapid.IntRange(0, 3).Draw(t, "source") {
+		switch rapid.IntRange(0, 4).Draw(t, "source") {
+		case 4: // consistent frames whose key is longer than memcached's 250 bytes
+			var stream []byte
+			for i := 0; i < rapid.IntRange(1, 3).Draw(t, "pipeline"); i++ {
+				c := genWireCmd(t, sc.Binary)
+				if len(c.Value) > 3000 {
+					c.Value = c.Value[:3000]
+				}
+				if c.Kind == wire.Quit {
+					c.Kind = wire.Noop
+				}
+				long := strings.Repeat("L", rapid.SampledFrom([]int{251, 252, 255, 256, 300, 1200, 65535}).Draw(t, "longKey"))
+				if len(c.Key) > 0 {
+					c.Key = long
+				}
+				for j := range c.Keys {
+					if j%2 == 0 {
+						c.Keys[j] = long
+					}
+				}
+				stream = append(stream, encodeCmd(sc.Binary, c)...)
+			}
+			in, kind = stream, "oversize-key"
 		case 0: // grid-like header, optionally with trailer
 			op := byte(rapid.IntRange(0, 255).Draw(t, "op"))
 			kl := rapid.SampledFrom([]int{0, 1, 2, 250, 65535}).Draw(t, "kl")
